@@ -928,6 +928,7 @@ type GenOpts struct {
 	UsedInGen    bool
 	UpperPairGen bool // link a pair through genesis with upper-case local token
 	MixedDenom   bool // in a fifth of the cases the minting denom has upper-case letters ("uUSDC")
+	Decoys       bool // in a quarter of the cases the attester registry also holds odd entries (empty, truncated, non-hex)
 }
 
 func (g *G) drawGenesis(o GenOpts) *GenSpec {
@@ -946,6 +947,18 @@ func (g *G) drawGenesis(o GenOpts) *GenSpec {
 		gs.Attesters = append(gs.Attesters, attest.K(k).Spelling(rapid.IntRange(0, 5).Draw(t, "spelling")))
 	}
 	gs.Threshold = uint32(rapid.IntRange(1, n).Draw(t, "threshold"))
+	if o.Decoys && rapid.IntRange(0, 3).Draw(t, "decoys") == 0 {
+		for i, k := 0, rapid.IntRange(1, 2).Draw(t, "ndecoys"); i < k; i++ {
+			d := rapid.SampledFrom([]string{"", "0x", "zz", "04", "0x04", Hex(attest.K(9).Pub[1:]), Hex(attest.K(10).Pub[:33]), "0x" + Hex(attest.K(11).Pub[33:])}).Draw(t, "decoy")
+			dup := false
+			for _, a := range gs.Attesters {
+				dup = dup || a == d
+			}
+			if !dup {
+				gs.Attesters = append(gs.Attesters, d)
+			}
+		}
+	}
 	if !o.NoPause {
 		gs.BMPaused = rapid.IntRange(0, 9).Draw(t, "bm") == 0
 		gs.SRPaused = rapid.IntRange(0, 9).Draw(t, "sr") == 0
@@ -1128,23 +1141,30 @@ func (g *G) ReplaceOp(label string, validPct int) *Op {
 			att = g.Bytes(label+"/noatt", 65)
 		}
 	}
-	var caller []byte
-	switch k := g.Int(label+"/caller", 0, 9); {
-	case k <= 3:
-		caller = make([]byte, 32)
-	case k <= 7 || valid:
-		caller = g.NonZero32(label+"/cl", by)
-	case k == 8:
-		caller = nil
-	default:
-		caller = g.Bytes(label+"/cl31", Pick(g, label+"/cll", []int{31, 33}))
-	}
+	caller := g.replCaller(label, by)
 	body := g.Body(label + "/body")
 	if valid && uint64(len(body)) > g.W.Model.MaxBody {
 		body = body[:g.W.Model.MaxBody]
 	}
 	op := TxOp("replace", &types.MsgReplaceMessage{From: by, OriginalMessage: orig, OriginalAttestation: att, NewMessageBody: body, NewDestinationCaller: caller})
 	return op.WithMeta("orig", cls)
+}
+
+// replCaller draws the new destination caller of a replacement: mostly a 32-byte value, sometimes
+// absent, short or over-long (whatever the rest of the request looks like).
+func (g *G) replCaller(label, by string) []byte {
+	switch k := g.Int(label+"/caller", 0, 19); {
+	case k <= 6:
+		return make([]byte, 32)
+	case k <= 15:
+		return g.NonZero32(label+"/cl", by)
+	case k == 16:
+		return nil
+	case k == 17:
+		return []byte{}
+	default:
+		return g.Bytes(label+"/clodd", Pick(g, label+"/cll", []int{1, 20, 31, 33, 64}))
+	}
 }
 
 // RepDepOp draws a replace-deposit-for-burn.
@@ -1222,25 +1242,19 @@ func (g *G) RepDepOp(label string, validPct int) *Op {
 			att = g.Bytes(label+"/noatt", 65)
 		}
 	}
-	var caller []byte
-	switch k := g.Int(label+"/caller", 0, 9); {
-	case k <= 3:
-		caller = make([]byte, 32)
-	case k <= 7 || valid:
-		caller = g.NonZero32(label+"/cl", by)
-	case k == 8:
-		caller = nil
-	default:
-		caller = g.Bytes(label+"/cl31", Pick(g, label+"/cll", []int{31, 33}))
-	}
+	caller := g.replCaller(label, by)
 	var mr []byte
-	if valid || g.Pct(label+"/mrok", 80) {
+	switch k := g.Int(label+"/mrk", 0, 19); {
+	case k <= 15:
 		mr = g.NonZero32(label+"/mr", by)
-	} else {
+	case k == 16:
 		mr = g.B32(label+"/mr", by)
-		if g.Bool(label + "/mrlen") {
-			mr = append(mr, 1)[:Pick(g, label+"/mrl", []int{0, 31, 33})]
-		}
+	case k == 17:
+		mr = g.NonZero32(label+"/mr", by)[:Pick(g, label+"/mrl", []int{0, 1, 20, 31})]
+	default:
+		// over-long: a 32-byte recipient followed by bytes that would land in the amount / depositor fields
+		mr = append(g.NonZero32(label+"/mr", by), g.Bytes(label+"/mrx", Pick(g, label+"/mrxl", []int{1, 32, 64, 100}))...)
+		mr[len(mr)-1] |= 1
 	}
 	op := TxOp("repdep", &types.MsgReplaceDepositForBurn{From: by, OriginalMessage: orig, OriginalAttestation: att, NewDestinationCaller: caller, NewMintRecipient: mr})
 	return op.WithMeta("orig", cls)
